@@ -110,7 +110,7 @@ func TestC36_WireLevel(t *testing.T) {
 					cfg["punchy"] = nsM{"punch": true, "respond": true, "delay": "100ms", "respond_delay": "200ms"}
 				}},
 				minSteps: 15, maxSteps: 60,
-				ops: []string{"tun", "tun", "tun", "tun", "deliver", "flush", "flush", "flush", "drop", "dup", "advance", "advance", "close", "rehandshake", "roamDenied", "roamDenied", "directAfterRelay", "directAfterRelay"},
+				ops: []string{"tun", "tun", "tun", "tun", "deliver", "flush", "flush", "flush", "drop", "dup", "advance", "advance", "close", "rehandshake", "roamDenied", "roamDenied", "directAfterRelay", "directAfterRelay", "replay", "replay"},
 				customOp: func(rt *rapid.T, hh *nsHist, op string) bool {
 					if hh.w.udpExtra == nil {
 						hh.w.udpExtra = func(src *nsNode, p *nsPacket) string {
